@@ -633,8 +633,10 @@ func runJournal(t *sim.T, which string) *sim.Violation {
 		}
 	}
 
-	// ---- C15 with a drawn window on the full history
-	if which == "C15" && len(feeds) > 0 {
+	// ---- a drawn window on the full history: selection (C15) and, for both properties, every trip the
+	// window returns must be recorded exactly as in the all-inclusive journal (what a trip's entry holds
+	// is determined by the history, not by the window it is asked for with)
+	if len(feeds) > 0 {
 		var instants []int64
 		for _, key := range keyOrder {
 			instants = append(instants, key.start)
@@ -691,15 +693,43 @@ func runJournal(t *sim.T, which string) *sim.Violation {
 			for i := range j.Trips {
 				tr := &j.Trips[i]
 				key, _ := keyOfOutput(tr)
-				if _, dup := obs[key]; dup {
+				if _, dup := obs[key]; dup && which == "C15" {
 					return &sim.Violation{Class: "selection", Signature: "C15:duplicate-entry", Detail: fmt.Sprintf("window run: two entries for key %s", key)}
 				}
 				obs[key] = tr
-				if i > 0 && !(j.Trips[i-1].TripUID < tr.TripUID) {
+				if i > 0 && !(j.Trips[i-1].TripUID < tr.TripUID) && which == "C15" {
 					return &sim.Violation{Class: "order", Signature: "C15:uid-order", Detail: fmt.Sprintf("window run: TripUID %q not after %q", tr.TripUID, j.Trips[i-1].TripUID)}
 				}
 			}
 			// closed window on instants (start instants are whole seconds; the bounds need not be)
+			if full, v := build(len(feeds), allStart, allEnd); v == nil {
+				fullBy := map[jKey]*journal.Trip{}
+				for i := range full.Trips {
+					if key, ok := keyOfOutput(&full.Trips[i]); ok {
+						fullBy[key] = &full.Trips[i]
+					}
+				}
+				for key, tr := range obs {
+					ft := fullBy[key]
+					if ft == nil {
+						continue
+					}
+					if which == "C14" && !listEq(tr.StopTimes, ft.StopTimes) {
+						return &sim.Violation{Class: "stop-list", Signature: "C14:list-depends-on-window", Detail: fmt.Sprintf("window [%d,%d]: trip %s has list %s, with the all-inclusive window %s", a.Unix(), b.Unix(), key, fmtList(tr.StopTimes), fmtList(ft.StopTimes))}
+					}
+					if which == "C15" {
+						da, db := *tr, *ft
+						da.StopTimes, db.StopTimes = nil, nil
+						if x, y := sim.Dump(da, nil), sim.Dump(db, nil); x != y {
+							return &sim.Violation{Class: "accounting", Signature: "C15:entry-depends-on-window:" + sim.DiffPath(x, y), Detail: fmt.Sprintf("window [%d,%d]: trip %s is recorded differently than with the all-inclusive window: %s", a.Unix(), b.Unix(), key, sim.FirstDiff(x, y))}
+						}
+					}
+				}
+				t.Probe("window-entries-compared")
+			}
+			if which != "C15" {
+				goto afterWindow
+			}
 			win := func(key jKey) bool {
 				st := time.Unix(key.start, 0)
 				return !st.Before(a) && !b.Before(st)
@@ -718,6 +748,7 @@ func runJournal(t *sim.T, which string) *sim.Violation {
 			}
 		}
 	}
+afterWindow:
 	for _, key := range keyOrder {
 		if !state[key].assigned {
 			t.Probe("never-assigned-trip")
